@@ -99,8 +99,10 @@ def shoc_shapes(nj, ni):
 
 
 def shoc_standard(nj, ni, *, node_x=None, node_y=None, face_x=None, face_y=None,
-                  data_vars=None, attrs=None, as_coords=True, dims=None):
-    """SHOC standard (Arakawa C): four grids with fixed coordinate names."""
+                  data_vars=None, attrs=None, as_coords=True, dims=None, x_transposed=()):
+    """SHOC standard (Arakawa C): four grids with fixed coordinate names.
+    x_transposed: grid kinds whose longitude variable is stored with its two dimensions the other way round
+    (x_centre(i_centre, j_centre) next to y_centre(j_centre, i_centre))."""
     dims = dims or SHOC_DIMS
     shapes = shoc_shapes(nj, ni)
     if node_x is None or node_y is None:
@@ -126,7 +128,11 @@ def shoc_standard(nj, ni, *, node_x=None, node_y=None, face_x=None, face_y=None,
         yname, xname = SHOC_COORDS[kind]
         assert numpy.shape(cx[kind]) == shapes[kind], (kind, numpy.shape(cx[kind]), shapes[kind])
         target[yname] = (dims[kind], cy[kind], dict(units='degrees_north', standard_name='latitude' if kind == 'face' else f'latitude_{kind}'))
-        target[xname] = (dims[kind], cx[kind], dict(units='degrees_east', standard_name='longitude' if kind == 'face' else f'longitude_{kind}'))
+        xattrs = dict(units='degrees_east', standard_name='longitude' if kind == 'face' else f'longitude_{kind}')
+        if kind in x_transposed:
+            target[xname] = (dims[kind][::-1], numpy.asarray(cx[kind], dtype=object if numpy.asarray(cx[kind]).dtype == object else float).T, xattrs)
+        else:
+            target[xname] = (dims[kind], cx[kind], xattrs)
     return _assemble(variables, coords, data_vars,
                      dict(attrs or {'Conventions': 'CMR/Timeseries/SHOC', 'ems_version': 'v1.2.3'}))
 
@@ -174,7 +180,7 @@ def mesh_edges(faces):
 
 def ugrid(mesh='tq', *, start_index=0, fill='nan', transposed=False, with_edges=None,
           edge_dimension_attr=True, supply=(), node_x=None, node_y=None, face_xy=None,
-          data_vars=None, attrs=None, coords_as_coords=False, dtype='int32', edge_order=None, fill_value=None):
+          data_vars=None, attrs=None, coords_as_coords=False, dtype='int32', edge_order=None, fill_value=None, edge_face_fill_first=False):
     """UGRID 2-D mesh.
 
     fill: 'nan' (float connectivity with NaN, as xarray decodes _FillValue),
@@ -250,7 +256,8 @@ def ugrid(mesh='tq', *, start_index=0, fill='nan', transposed=False, with_edges=
         rows = []
         for e in edges:
             fs = [fi for fi, f in enumerate(faces) if frozenset(e) in {frozenset(p) for p in zip(f, f[1:] + f[:1])}]
-            rows.append(fs + [None] * (2 - len(fs)))
+            # boundary edges have one face; which of the two slots holds the fill is not prescribed
+            rows.append(([None] * (2 - len(fs)) + fs) if edge_face_fill_first else (fs + [None] * (2 - len(fs))))
         variables['edge_face'] = conn(rows, 2, 'nedge', 'Two', 'edge_face', dict(cf_role='edge_face_connectivity'))
     if 'face_face' in supply:
         mesh_attrs['face_face_connectivity'] = 'face_face'
